@@ -312,3 +312,10 @@ def run(ctx):
             (ctx.ok if r.status == "ok" else ctx.fail)("R01-6", r.instance, r.reason, r.loc)
     ctx.floor("proving-entry-points", n, 5)
     ctx.floor("constructors", k, 4)
+    # R01-8 (shared with C06 R06-3): the proof of a member verifies against the tree's root only if the root reflects every write:
+    # parent recomputation of the in-memory back ends climbs to the root unconditionally
+    from . import c06
+    sub = _Ctx(ctx.pid, ctx.tier)
+    c06.check_recompute(sub, ctx.fb("default"))
+    for r in sub.results:
+        (ctx.ok if r.status == "ok" else ctx.fail)("R01-8", r.instance, r.reason, r.loc)
